@@ -178,5 +178,41 @@ def step (env : Env) (c : Cfg) (st : St) : PEv → St
 
 def run (env : Env) (c : Cfg) (evs : List PEv) : St := evs.foldl (step env c) {}
 
+/-! ### reading a scenario: what the scripted upstream server manages to send
+
+  The upstream server can write only on an established connection (`step` drops an `up` payload
+  while `conn ≠ .connected`, the harness does the same).  The connection of a routed request is
+  established by the first event-loop turn that starts after the client's head is complete.
+  `upScan` follows exactly that through an event list; `upstreamSent` is the concatenation of the
+  payloads that reach the proxy, in order. -/
+
+structure UpScan where
+  fed  : Bytes := []       -- the client's bytes so far
+  conn : Bool := false     -- a turn has run since the client's head was complete
+  got  : Bytes := []       -- payloads written on the established connection
+deriving Repr, Inhabited
+
+def upScanStep (u : UpScan) : PEv → UpScan
+  | .sock (.feed b) => { u with fed := u.fed ++ b }
+  | .sock (.prebuf b) => { u with fed := u.fed ++ b }
+  | .turn => { u with conn := u.conn || (breakOn CRLF2 u.fed).isSome }
+  | .up b => if u.conn then { u with got := u.got ++ b } else u
+  | _ => u
+
+def upScan (evs : List PEv) : UpScan := evs.foldl upScanStep {}
+
+/-- everything the upstream server sent on the established connection -/
+def upstreamSent (evs : List PEv) : Bytes := (upScan evs).got
+
+/-- the upstream server's answer, as far as it has been sent, does not make the proxy give up:
+    either no response head is complete yet (no blank line), or the first one is a response head
+    `Parser::parseResponseHeaders` accepts (then it is relayed and `mHeadersParsed` is set; the
+    downstream socket stays open).  Otherwise `onUpstreamReadyRead` answers 502 through
+    `writeError`, which closes the downstream socket: nothing more is read from the client. -/
+def upHeadOk (evs : List PEv) : Bool :=
+  match breakOn CRLF2 (upstreamSent evs) with
+  | none => true
+  | some (h, _) => (Parser.parseResponseHeaders h).isSome
+
 end Proxy
 end Qhttp
